@@ -521,7 +521,10 @@ type c13Diff struct {
 	// lookalike: the field (or an enclosing one) also carries a tag of another
 	// library whose key ends in this format's name, and no real format tag
 	lookalike bool
-	text      string
+	// nonASCII: the Go name of the field (or of an enclosing one) has a letter
+	// outside ASCII; initial: it starts with one
+	nonASCII, nonASCIIInitial bool
+	text                      string
 }
 
 type c13Matcher struct {
@@ -539,12 +542,17 @@ type c13Matcher struct {
 	// (geojson, goyaml, ...) and no real tag of that format
 	foreignSeen int64
 	inLookalike bool // while matching below a field with a look-alike tag for m.fm
-	kinds       map[string]struct{}
+	// present fields whose Go name has a letter outside ASCII / starts with one
+	nonASCIISeen, nonASCIIInitialSeen int64
+	// while matching a field (or below a field) with such a name
+	inNonASCII, inNonASCIIInitial bool
+	kinds                         map[string]struct{}
 }
 
 func (m *c13Matcher) add(class, path string, n *c13Node, own, elem, ns bool, text string) {
 	if len(m.diffs) < 8 {
-		m.diffs = append(m.diffs, c13Diff{class: class, path: path, sig: n.sig, own: own, elem: elem, ns: ns, lookalike: m.inLookalike, text: text})
+		m.diffs = append(m.diffs, c13Diff{class: class, path: path, sig: n.sig, own: own, elem: elem, ns: ns, lookalike: m.inLookalike,
+			nonASCII: m.inNonASCII, nonASCIIInitial: m.inNonASCIIInitial, text: text})
 	}
 }
 
@@ -827,8 +835,20 @@ func (m *c13Matcher) matchFields(n *c13Node, want *c13Val, got reflect.Value, ra
 				}
 				continue
 			}
+			prevNA, prevNAI := m.inNonASCII, m.inNonASCIIInitial
+			restoreNA := func() { m.inNonASCII, m.inNonASCIIInitial = prevNA, prevNAI }
+			if na, nai := c13NonASCIIName(f.name); na {
+				m.inNonASCII, m.inNonASCIIInitial = true, prevNAI || nai
+				if want.field(f) != nil {
+					m.nonASCIISeen++
+					if nai {
+						m.nonASCIIInitialSeen++
+					}
+				}
+			}
 			if !fv.IsValid() {
 				m.add("shape", path+"."+f.name, f.node, own, elem, false, "field missing from the value")
+				restoreNA()
 				continue
 			}
 			if f.foreignAlone && want.field(f) != nil {
@@ -844,6 +864,7 @@ func (m *c13Matcher) matchFields(n *c13Node, want *c13Val, got reflect.Value, ra
 			m.inLookalike = prev || f.lookalikeFor(m.fm)
 			m.match(f.node, want.field(f), fv, raw, path+"."+f.name, own || f.hasOwn(m.fm), elem)
 			m.inLookalike = prev
+			restoreNA()
 		}
 	}
 }
